@@ -29,9 +29,15 @@ Fixpoint ancestors (dir : path) : list path :=
 (** [Path::starts_with]: [dir] is an ancestor-or-self of [p] (component-wise). *)
 Definition starts_with (p dir : path) : bool := mem_path dir (ancestors p).
 
-(** `file_path.to_string_lossy().contains("site-packages")` — the needle has no
-    separator, so it occurs in the joined string iff it occurs in a component. *)
+(** [is_in_site_packages] (since fix 29c6b9a): some component is named exactly
+    "site-packages".  With no workspace root set (virtual workspaces of the harness) the
+    whole path is examined; for a workspace file only the root-relative part
+    (Model/Scanner.v [third_party_rel]). *)
 Definition path_contains_site_packages (p : path) : bool :=
+  existsb (String.eqb site_packages) p.
+(** before that fix: substring test over the joined absolute path — the needle has no
+    separator, so it occurs in the joined string iff it occurs in a component *)
+Definition path_contains_site_packages_old (p : path) : bool :=
   existsb (containsb site_packages) p.
 
 (** ** Scopes: Function=0 < Class=1 < Module=2 < Package=3 < Session=4 *)
